@@ -22,7 +22,7 @@ RULE = ('for every generated spec (imports both ways across the API, cross-names
         'every field is set, read and deleted with a valid value. distinct = distinct (exposed item kind, '
         'feature) cells found as declared')
 ASSUMPTIONS = ['identifiers are identity-stable under the backend case conversion and not reserved words']
-REQUIRED_COUNTERS = ['fresh_imports', 'items_compared']
+REQUIRED_COUNTERS = ['fresh_imports', 'items_compared', 'attributes_exercised']
 
 
 def time_limit(tier):
@@ -100,6 +100,9 @@ def compare(res, m, desc, replay, first):
                 exp_base = '%s.%s' % d.parent if d.parent else 'stone_base.Struct'
                 if cd['bases'] != [exp_base]:
                     bad('wrong_bases', 'struct', {'name': d.name, 'bases': cd['bases'], 'expected': exp_base})
+                if '__init__' in (cd.get('exercise') or {}):
+                    bad('constructor_without_arguments_raised', 'struct',
+                        {'name': d.name, 'error': cd['exercise']['__init__']})
                 exp_init = [f.name for f in m.struct_all_fields(d)]
                 if cd['init'] != exp_init:
                     bad('constructor_parameters', 'struct', {'name': d.name, 'got': cd['init'],
@@ -138,6 +141,20 @@ def compare(res, m, desc, replay, first):
                             bad('field_default_value_kind', 'struct_field',
                                 {'struct': d.name, 'field': f.name, 'got': got_d, 'expected': exp_d})
                         res.see('struct_field_default', f.default[0])
+                    exr = (cd.get('exercise') or {}).get(f.name)
+                    if exr is not None:
+                        res.count('attributes_exercised')
+                        want = 'value' if (f.default is not None or m.is_nullable(f.type)) else 'missing_required'
+                        if m.is_nullable(f.type) and not f.type.nullable and f.default is None:
+                            # alias of a nullable type: whether the field counts as optional
+                            # is C04's recorded finding; here only usability is judged
+                            want = exr.get('read') if exr.get('read') in ('value', 'missing_required') else want
+                        exp_x = {'read': want, 'delete': 'ok', 'read_after_delete': want}
+                        if f.default is not None:
+                            exp_x['write_default'] = 'ok'
+                        if exr != exp_x:
+                            bad('attribute_not_usable', 'struct_field',
+                                {'struct': d.name, 'field': f.name, 'got': exr, 'expected': exp_x})
                     res.see('struct_field', 'inherited' if f not in m.own_fields(d) else 'own',
                             'foreign_type' if f.type.kind == 'ref' and f.type.ns != d.ns else 'local')
                 res.see('struct', 'child' if d.parent else 'top',
